@@ -1181,7 +1181,7 @@ func funStartWith(s string, substr string) (bool, error) {
 }
 
 func funEndWith(s string, substr string) (bool, error) {
-	return strings.Index(s, substr) == len(s)-len(substr), nil
+	return strings.HasSuffix(s, substr), nil
 }
 
 func funContains(s string, substr string) (bool, error) {
